@@ -40,7 +40,7 @@ for _t, _al in gen.ALIASES.items():
             ALIAS[_a] = _t
 ALIAS.pop("unsigned char", None)
 FLT = {"float16": "e", "float": "f", "double": "d"}
-WCH = [0x41, 0x7A, 0xE9, 0x4E2D, 0x20AC, 0xD7FF, 0xE000, 0xFFFD, 0x0100, 0x00FF, 0x1, 0xFEFF, 0xFFFE, 0xFFFF, 0x0]
+WCH = [0x41, 0x7A, 0xE9, 0x4E2D, 0x20AC, 0xD7FF, 0xE000, 0xFFFD, 0x0100, 0x00FF, 0x1, 0xFEFF, 0xFFFE, 0xFFFF, 0x0, 0x4E00, 0x0041, 0x4100]
 FLOATS = {"float16": [0.0, -0.0, 0.0, 1.0, -2.0, 0.5, 65504.0, -0.25, float("inf")], "float": [0.0, -0.0, 0.0, 1.0, -1.5, 3.0e10, 1.1754943508222875e-38, 16777216.0, float("-inf")],
           "double": [0.0, -0.0, 0.0, 1.0, -1.5, 1e300, 2.2250738585072014e-308, 9007199254740993.0, float("inf")]}
 
@@ -172,10 +172,15 @@ def gen_case(rng: random.Random, tier: str):
         elif r < 0.5:
             t = rng.choice(POOL + ["uleb128", "ileb128"] * 3)
             ops.append({"op": "scalar", "cs": c, "t": t, "v": gen_value(rng, t), "trunc": rng.random() < 0.1})
-        elif r < 0.65:
+        elif r < 0.6:
             t = rng.choice(POOL)
             n = rng.randint(1, 4)
             ops.append({"op": "array", "cs": c, "t": t, "vs": [gen_value(rng, t) for _ in range(n)], "cached": rng.random() < 0.5})
+        elif r < 0.66:
+            # null-terminated form x[]: elements up to and including the first zero element; dumping re-appends it
+            t = rng.choice(["wchar", "wchar", "char", "uint8", "uint16", "int32", "uint64", "int24", "WORD", "uleb128"])
+            vs = [v for v in (gen_value(rng, t) for _ in range(rng.randint(0, 6))) if v != 0]
+            ops.append({"op": "zarray", "cs": c, "t": t, "vs": vs})
         else:
             f = css[c]["fields"]
             vals = []
@@ -294,6 +299,10 @@ def _step(op, worlds, stats, fail):
             d = typ.dumps(got)
             if d != b:
                 fail("encode", f"{t} endian {e} (before: {w['prev']}) value {op['v']}: dumps gave {d.hex()}, standard encoding is {b.hex()}")
+            out = io.BytesIO()
+            typ.write(out, got)  # the stream entry point must write the same bytes as dumps()
+            if out.getvalue() != b:
+                fail("encode", f"{t} endian {e}: write(stream, value) wrote {out.getvalue().hex()}, standard encoding is {b.hex()}")
             # encoding from a plain python value as well
             pv = op["v"] if want(t, op["v"])[0] in ("i", "f") else (bytes([op["v"]]) if t in ("char", "CHAR") else chr(op["v"]))
             d2 = typ.dumps(pv)
@@ -320,6 +329,21 @@ def _step(op, worlds, stats, fail):
             d = at.dumps(got)
             if d != b:
                 fail("encode_array", f"{t}[{n}] endian {e} dumps gave {d.hex()} expected {b.hex()}")
+        elif k == "zarray":
+            t = op["t"]
+            at = cs.resolve(t)[None]
+            b = b"".join(encode(t, v, e) for v in op["vs"]) + encode(t, 0, e)
+            s = io.BytesIO(b + b"\x55\x55")
+            got = at(s)
+            stats.count("evaluations")
+            if w["switched"]:
+                stats.key(t, w["prev"], e, None, "zarray")
+            exp = want_array(t, op["vs"])
+            if plain(got) != exp or s.tell() != len(b):
+                fail("decode_null_terminated", f"{t}[] endian {e} (before: {w['prev']}) bytes {b.hex()}: got {plain(got)} consumed {s.tell()}, expected {exp} consumed {len(b)}")
+            d = at.dumps(got)
+            if d != b:
+                fail("encode_null_terminated", f"{t}[] endian {e}: dumps gave {d.hex()} expected {b.hex()}")
         elif k == "struct":
             F = cs.Fc if op["compiled"] else cs.Fi
             if op["compiled"] and not F.__compiled__:
